@@ -152,6 +152,7 @@ def build_reference(repo, modules):
     for q, fi in repo.funcs.items():
         if fi.module.name in modules and not fi.is_lambda:
             ref[q] = describe(fi.node)
+            ref[q].update(describe_tests(fi.node))
     return ref
 
 
@@ -188,7 +189,10 @@ def apply_reference(repo):
         nested = _nested_uses(fi.node)
         for t, names in ck.items():
             if t in rk and len(rk[t]) == len(names):
-                for a, b in zip(names, rk[t]):
+                # names that exist on both sides keep their name (a reordering of the bindings is not a renaming);
+                # the others are matched in order
+                same = set(names) & set(rk[t])
+                for a, b in zip([n for n in names if n not in same], [n for n in rk[t] if n not in same]):
                     if a != b and a not in nested:
                         mapping[a] = b
         # never merge two names or capture an existing one
@@ -204,6 +208,7 @@ def apply_reference(repo):
     except RecursionError:
         inl = {}
     repo.inlined_aliases = inl
+    repo.respelled = respell(repo, ref)
     return renamed
 
 
@@ -395,3 +400,201 @@ def _inside(node, kinds, stop):
             return True
         p = getattr(p, "_parent", None)
     return False
+
+
+# ----------------------------------------------------------------------------------------------------------------------
+# spelling of conditions: `b > a` for `a < b`, `if not c: B else: A` for `if c: A else: B`, `not (a == b)` for `a != b`
+# are rewritten (in memory) to the spelling of the reference version of the same function when that spelling occurs there
+
+_MIRROR = {ast.Lt: ast.Gt, ast.LtE: ast.GtE, ast.Gt: ast.Lt, ast.GtE: ast.LtE, ast.Eq: ast.Eq, ast.NotEq: ast.NotEq}
+_COMPL = {ast.Lt: ast.GtE, ast.GtE: ast.Lt, ast.Gt: ast.LtE, ast.LtE: ast.Gt, ast.Eq: ast.NotEq, ast.NotEq: ast.Eq,
+          ast.In: ast.NotIn, ast.NotIn: ast.In, ast.Is: ast.IsNot, ast.IsNot: ast.Is}
+
+
+def _txt(n):
+    return ast.unparse(n)
+
+
+def describe_tests(fnode):
+    """texts of the comparisons, negations and if-tests of a function (reference spelling)"""
+    comps, nots, tests = [], [], []
+    for n in walk_own(fnode):
+        if isinstance(n, ast.Compare):
+            comps.append(_txt(n))
+        elif isinstance(n, ast.UnaryOp) and isinstance(n.op, ast.Not):
+            nots.append(_txt(n))
+        if isinstance(n, (ast.If, ast.While, ast.IfExp)):
+            tests.append(_txt(n.test))
+    augs = sorted({_txt(n) for n in walk_own(fnode) if isinstance(n, ast.AugAssign)})
+    ifs = {}
+    for n in walk_own(fnode):
+        if isinstance(n, ast.If) and n.body and isinstance(n.body[-1], _TERMINATORS):
+            form = "else" if n.orelse else "noelse"
+            t = _txt(n.test)
+            ifs[t] = form if ifs.get(t, form) == form else "mixed"
+    return {"compares": sorted(set(comps)), "nots": sorted(set(nots)), "tests": sorted(set(tests)), "augs": augs, "ifs": ifs}
+
+
+_TERMINATORS = (ast.Return, ast.Raise, ast.Continue, ast.Break)
+
+
+def _blocks(fnode):
+    """(owner node, field name, statement list) of every block of the function"""
+    out = [(fnode, "body", fnode.body)]
+    for n in walk_own(fnode):
+        for f in ("body", "orelse", "finalbody"):
+            blk = getattr(n, f, None)
+            if isinstance(blk, list) and blk and isinstance(blk[0], ast.stmt):
+                out.append((n, f, blk))
+        if isinstance(n, ast.Try):
+            for h in n.handlers:
+                out.append((h, "body", h.body))
+    return out
+
+
+def _invalidate(node):
+    p = node
+    while p is not None:
+        if hasattr(p, "_norm_text"):
+            del p._norm_text
+        p = getattr(p, "_parent", None)
+
+
+def _reshape(fi, ref_q):
+    """else-after-return nesting and `x = x + c` for `x += c`, towards the reference form"""
+    n_changed = 0
+    ifs = ref_q.get("ifs", {})
+    augs = set(ref_q.get("augs", []))
+    again = True
+    while again:
+        again = False
+        for owner, field, blk in _blocks(fi.node):
+            for i, st in enumerate(blk):
+                if not (isinstance(st, ast.If) and st.body and isinstance(st.body[-1], _TERMINATORS)):
+                    continue
+                form = ifs.get(_txt(st.test))
+                if form == "else" and not st.orelse and i + 1 < len(blk):
+                    rest = blk[i + 1:]
+                    del blk[i + 1:]
+                    st.orelse = rest
+                    for r in rest:
+                        r._parent = st
+                    _invalidate(st)
+                    n_changed += 1
+                    again = True
+                    break
+                if form == "noelse" and st.orelse and not (len(st.orelse) == 1 and isinstance(st.orelse[0], ast.If) and _txt(st.orelse[0].test) in ifs and False):
+                    rest = st.orelse
+                    st.orelse = []
+                    blk[i + 1:i + 1] = rest
+                    for r in rest:
+                        r._parent = owner
+                    _invalidate(st)
+                    n_changed += 1
+                    again = True
+                    break
+            if again:
+                break
+    for owner, field, blk in _blocks(fi.node):
+        for i, st in enumerate(blk):
+            if isinstance(st, ast.Assign) and len(st.targets) == 1 and isinstance(st.value, ast.BinOp) and isinstance(st.targets[0], (ast.Name, ast.Attribute)) \
+                    and _txt(st.value.left) == _txt(st.targets[0]):
+                aug = ast.AugAssign(target=st.targets[0], op=st.value.op, value=st.value.right)
+                if _txt(aug) in augs:
+                    ast.copy_location(aug, st)
+                    aug._parent = owner
+                    aug.target._parent = aug
+                    aug.value._parent = aug
+                    aug._respelled = True
+                    blk[i] = aug
+                    _invalidate(aug)
+                    n_changed += 1
+    return n_changed
+
+
+def _mirror(c):
+    return ast.Compare(left=c.comparators[0], ops=[_MIRROR[type(c.ops[0])]()], comparators=[c.left])
+
+
+def _complement(c):
+    return ast.Compare(left=c.left, ops=[_COMPL[type(c.ops[0])]()], comparators=list(c.comparators))
+
+
+def _install(old, new):
+    """put `new` (a fresh tree) where `old` is; fix parents, positions and cached texts"""
+    new = ast.parse(ast.unparse(new), mode="eval").body
+    for y in ast.walk(new):
+        ast.copy_location(y, old)
+        for c in ast.iter_child_nodes(y):
+            c._parent = y
+    # keep the original operand objects' identity out of it: rules never hold nodes across Repo construction
+    new._parent = old._parent
+    new._respelled = True
+    _replace_child(old._parent, old, new)
+    p = new._parent
+    while p is not None:
+        if hasattr(p, "_norm_text"):
+            del p._norm_text
+        p = getattr(p, "_parent", None)
+    return new
+
+
+def respell(repo, ref):
+    """rewrite condition spellings to the reference spelling where the two are equivalent by construction:
+    mirrored comparison (operands evaluated in the other order; their values do not depend on it in this code base's
+    conditions, which contain no side-effecting operands), `not (a OP b)` for the complementary operator, and an if/else
+    whose test is the negation (or complementary comparison) of the reference test with the two suites exchanged."""
+    changed = {}
+    for q, fi in repo.funcs.items():
+        if fi.is_lambda or q not in ref or "compares" not in ref[q]:
+            continue
+        refc, refn, reft = set(ref[q]["compares"]), set(ref[q]["nots"]), set(ref[q]["tests"])
+        n_changed = 0
+        for _ in range(2):
+            # if / else exchanged
+            for n in list(walk_own(fi.node)):
+                if not isinstance(n, ast.If) or not n.orelse:
+                    continue
+                if len(n.orelse) == 1 and isinstance(n.orelse[0], ast.If) and n.orelse[0].col_offset == n.col_offset and False:
+                    continue
+                t = n.test
+                if _txt(t) in reft:
+                    continue
+                cands = []
+                if isinstance(t, ast.UnaryOp) and isinstance(t.op, ast.Not):
+                    cands.append(t.operand)
+                    if isinstance(t.operand, ast.Compare) and len(t.operand.ops) == 1 and type(t.operand.ops[0]) in _MIRROR:
+                        cands.append(_mirror(t.operand))
+                elif isinstance(t, ast.Compare) and len(t.ops) == 1 and type(t.ops[0]) in _COMPL:
+                    c = _complement(t)
+                    cands.append(c)
+                    if type(c.ops[0]) in _MIRROR:
+                        cands.append(_mirror(c))
+                for x in cands:
+                    if _txt(x) in reft:
+                        _install(t, x)
+                        n.body, n.orelse = n.orelse, n.body
+                        n_changed += 1
+                        break
+            # not (a OP b)  ->  a COMPL b
+            for n in list(walk_own(fi.node)):
+                if isinstance(n, ast.UnaryOp) and isinstance(n.op, ast.Not) and isinstance(n.operand, ast.Compare) and len(n.operand.ops) == 1 \
+                        and type(n.operand.ops[0]) in _COMPL and _txt(n) not in refn and getattr(n, "_parent", None) is not None:
+                    c = _complement(n.operand)
+                    if _txt(c) in refc:
+                        _install(n, c)
+                        n_changed += 1
+                    elif type(c.ops[0]) in _MIRROR and _txt(_mirror(c)) in refc:
+                        _install(n, _mirror(c))
+                        n_changed += 1
+            # mirrored comparisons
+            for n in list(walk_own(fi.node)):
+                if isinstance(n, ast.Compare) and len(n.ops) == 1 and type(n.ops[0]) in _MIRROR and _txt(n) not in refc and getattr(n, "_parent", None) is not None:
+                    m = _mirror(n)
+                    if _txt(m) in refc:
+                        _install(n, m)
+                        n_changed += 1
+        n_changed += _reshape(fi, ref[q])
+        if n_changed:
+            changed[q] = n_changed
+    return changed
